@@ -110,6 +110,10 @@ type FarmSpec struct {
 	Series  int64  `json:"series"` // samples kept by metric relabeling
 	Total   int64  `json:"total"`  // samples in the payload
 	Healthy bool   `json:"healthy"`
+	// Hang: while the target is not healthy it does not fail fast (status 500) but does not answer at all: the
+	// shard's Prometheus gives up first, i.e. its request to the proxy is cancelled as soon as the proxy's request
+	// has reached the silent target, and the proxy's own request then times out
+	Hang bool `json:"hang,omitempty"`
 }
 
 // InitCopy is one entry of the initial placement.
@@ -215,13 +219,14 @@ type CopySt struct {
 
 // World is a running closed loop.
 type World struct {
-	Case    *Case
-	root    string
-	Farm    map[uint64]*FarmSpec
-	order   []uint64
-	Shards  []*Sidecar
-	stores  map[int]string
-	Desired int32
+	Case      *Case
+	root      string
+	tokCancel map[string]func()
+	Farm      map[uint64]*FarmSpec
+	order     []uint64
+	Shards    []*Sidecar
+	stores    map[int]string
+	Desired   int32
 
 	coordCfg *prom.ConfigInfo
 	active   map[uint64]*discovery.SDTargets
@@ -333,6 +338,15 @@ func (f farmTransport) RoundTrip(r *http.Request) (*http.Response, error) {
 	}
 	if err != nil || t == nil {
 		return nil, fmt.Errorf("no such host %s", host)
+	}
+	if !spec.Healthy && spec.Hang {
+		f.w.mu.Lock()
+		cancel := f.w.tokCancel[r.URL.Query().Get("vtok")]
+		f.w.mu.Unlock()
+		if cancel != nil {
+			cancel() // Prometheus' scrape timeout fires first
+		}
+		return nil, fmt.Errorf("Get %q: context deadline exceeded (scripted: the target does not answer)", r.URL.String())
 	}
 	if !spec.Healthy {
 		return &http.Response{StatusCode: 500, Status: "500 down", Body: ioutil.NopCloser(strings.NewReader("down")), Header: http.Header{}, Request: r}, nil
@@ -1036,7 +1050,20 @@ func (w *World) scrapeOne(i int, sc *Sidecar, pt promTarget) {
 		if !strings.Contains(pt.url, "?") {
 			sep = "?"
 		}
-		req := httptest.NewRequest("GET", pt.url+sep+"vtok="+tok, nil)
+		ctx, cancel := context.WithCancel(context.Background())
+		defer cancel()
+		req := httptest.NewRequest("GET", pt.url+sep+"vtok="+tok, nil).WithContext(ctx)
+		w.mu.Lock()
+		if w.tokCancel == nil {
+			w.tokCancel = map[string]func(){}
+		}
+		w.tokCancel[tok] = cancel
+		w.mu.Unlock()
+		defer func() {
+			w.mu.Lock()
+			delete(w.tokCancel, tok)
+			w.mu.Unlock()
+		}()
 		rec := httptest.NewRecorder()
 		func() {
 			defer func() { _ = recover() }() // the proxy aborts a response that fails mid-body
